@@ -105,7 +105,6 @@ end
 
 /-! ### lockstep -/
 
-def isSp (p : PCfg) (x : PStr) : Bool := x.all fun c => p.asciiSpaces.contains c
 
 /-- pending data of the first pass (`b`) and of the second pass (`c`) -/
 def Rel (p : PCfg) (ctx : Ctx) (after : Bool) (b c : List PStr) : Prop :=
